@@ -77,6 +77,12 @@ OBLIGATIONS += [
     inode(8, "64,192,320", 24, 5, ["thorough"], 1200),
 ]
 
+OBLIGATIONS.append(dict(name="readdir_arbitrary_listing", harness="harness/C05_readdir.c", sources=["lib/sqfs/src/readdir.c"], pre_include=["stubs/vp_alloc_sizes.h"],
+    defines=dict(K=3, VP_ALLOC_SIZES="10,11,12", VP_META_MAXRD=12, VP_META_MAXCALLS=9), unwind=6, termination=True, tiers=["quick", "thorough"], timeout=300,
+    reach=["eof", "error", "entry"],
+    functions=["sqfs_readdir_state_init, sqfs_meta_reader_readdir, sqfs_meta_reader_read_dir_header, sqfs_meta_reader_read_dir_ent (lib/sqfs/src/readdir.c)"],
+    bound="arbitrary directory inode (basic/extended), 3 consecutive readdir calls, every metadata byte unconstrained, names of 1..3 bytes (larger allocations fail)"))
+
 ASSUMPTIONS = [
     "file stub: read_at copies the available prefix and fails with OUT_OF_BOUNDS past the end (behaviour of the pread loop in io/file.c)",
     "compressor stub: arbitrary deterministic function of (first input byte & 3, size & 3, last byte); returns <0 or 0..outsize (documented do_block contract); real codec libraries outside",
